@@ -3,8 +3,11 @@ evidence, known findings.  The C++ drivers only drive and record; every verdict 
 import fcntl, glob, hashlib, json, os, re, shutil, subprocess, sys, time
 
 V = os.path.dirname(os.path.dirname(os.path.abspath(__file__)))
-B = os.path.join(V, ".build")
-REPO = "/repo"
+# VERIF_REPO / VERIF_BUILD / VERIF_EVIDENCE let tools/mutant_run check a scratch copy of the sources
+# (selftests, seeded changes) without touching /repo, /verif/.build or the committed evidence.
+B = os.environ.get("VERIF_BUILD", os.path.join(V, ".build"))
+REPO = os.environ.get("VERIF_REPO", "/repo")
+EVID = os.environ.get("VERIF_EVIDENCE", os.path.join(V, "evidence"))
 SPEC = os.path.join(V, "spec")
 HARNESS = os.path.join(V, "harness")
 NCPU = os.cpu_count() or 4
@@ -47,10 +50,11 @@ def build_stir(omp=False):
     tree = "stir-omp" if omp else "stir"
     d = os.path.join(B, tree)
     if not os.path.exists(os.path.join(d, "build.ninja")):
-        rc, out = sh([os.path.join(V, "bin", "setup")], timeout=3000)
+        rc, out = sh([os.path.join(V, "bin", "setup")], timeout=3000, env={"VERIF_REPO": REPO, "VERIF_BUILD": B, "VERIF_TREES": tree})
         if rc != 0:
             raise ModelFailure("bin/setup failed:\n" + out[-3000:])
-    lk = _locked(tree)
+    os.makedirs(os.path.join(B, "drivers"), exist_ok=True)
+    lk = _locked(tree + "-b")
     try:
         t = time.time()
         rc, out = sh(["ninja", "-C", d, "-j%d" % NCPU], timeout=3000)
@@ -348,7 +352,7 @@ class Ctx:
         shutil.rmtree(self.work, ignore_errors=True)
         os.makedirs(self.work, exist_ok=True)
         self.known = load_known(pid)
-        self.replays = os.path.join(V, "replays", pid)
+        self.replays = os.path.join(V if EVID.startswith(V) else EVID, "replays", pid)
 
     @property
     def quick(self):
@@ -405,8 +409,8 @@ class Ctx:
         ev = {"property_id": self.pid, "tier": self.tier, "seed": self.seed, "level": level, "coverage": cov,
               "assumptions": self.assumptions, "wall_s": round(time.time() - self.t0, 1),
               "violations": len(self.violations)}
-        os.makedirs(os.path.join(V, "evidence"), exist_ok=True)
-        with open(os.path.join(V, "evidence", self.pid + ".json"), "w") as f:
+        os.makedirs(EVID, exist_ok=True)
+        with open(os.path.join(EVID, self.pid + ".json"), "w") as f:
             json.dump(ev, f, indent=1)
         log("%s %s: states=%d transitions=%d traces=%d evaluations=%d distinct=%d wall=%.0fs violations=%d" % (
             self.pid, self.tier, self.states, self.transitions, self.traces, self.evaluations, len(self.distinct),
